@@ -42,6 +42,34 @@ class ObsList(list):
         self._fo.on_unpack(self._pallet, x)
         return x
 
+    def remove(self, x):
+        list.remove(self, x)
+        self._fo.on_unpack(self._pallet, x)
+
+    def __delitem__(self, i):
+        xs = self[i] if isinstance(i, slice) else [self[i]]
+        list.__delitem__(self, i)
+        for x in xs:
+            self._fo.on_unpack(self._pallet, x)
+
+    def clear(self):
+        xs = list(self)
+        list.clear(self)
+        for x in xs:
+            self._fo.on_unpack(self._pallet, x)
+
+    def extend(self, xs):
+        for x in xs:
+            self.append(x)
+
+    def insert(self, i, x):
+        list.insert(self, i, x)
+        self._fo.on_pack(self._pallet, x)
+
+    def __iadd__(self, xs):
+        self.extend(xs)
+        return self
+
 
 class ItemState:
     __slots__ = ("item", "iid", "kind", "state", "where", "source", "t_created", "t_first_put", "last_edge", "last_getter",
@@ -442,6 +470,7 @@ class FactoryOracle:
                 if uu.t_out is None and not uu.discarded:
                     uu.emitted.append(("discard", sx.iid))
                     if x is uu.x:
+                        self._check_splitter_unit(L, uu)
                         uu.discarded = True
                         uu.t_out = now
                         L.held -= 1
@@ -652,6 +681,7 @@ class FactoryOracle:
                 if uu.t_out is None and not uu.discarded:
                     uu.emitted.append(("put", sx.iid, idx))
                     if x is uu.x:
+                        self._check_splitter_unit(L, uu)
                         uu.t_out = now
                         uu.edge_out = idx
                         L.held -= 1
@@ -774,6 +804,32 @@ class FactoryOracle:
                     mon.violation("C15", "first_available_in", f"{L.type}:FIRST_AVAILABLE-pulled-from-a-higher-index-edge-although-a-lower-one-was-granted",
                                   {"node": L.id, "used": idx, "lower_granted": j})
                     break
+
+    # ------------------------------------------------------------------ C16 (splitter)
+    def _check_splitter_unit(self, L, u):
+        """called when the incoming pallet itself is emitted (put or dropped): everything it carried must have
+        been emitted exactly once before, and it must be empty now"""
+        mon = self.mon
+        mon.counters["c16_splitter_pallets_checked"] += 1
+        content = list(u.content or [])
+        outs = [e for e in u.emitted if e[0] in ("put", "discard")]
+        pallet_id = getattr(u.x, "id", None)
+        ids = [e[1] for e in outs]
+        if ids and ids[-1] != pallet_id:
+            mon.violation("C16", "splitter_pallet_not_last", "splitter:pallet-not-emitted-last", {"node": L.id, "emitted": ids[-6:]})
+        items_out = [i for i in ids if i != pallet_id]
+        if sorted(map(str, items_out)) != sorted(map(str, content)):
+            missing = [c for c in content if c not in items_out]
+            extra = [i for i in items_out if i not in content]
+            dup = len(items_out) != len(set(items_out))
+            mon.violation("C16", "splitter_emission", "splitter:emitted-items-differ-from-the-pallet-content" +
+                          (":item-emitted-twice" if dup else "") + (":item-not-emitted" if missing else "") + (":foreign-item-emitted" if extra else ""),
+                          {"node": L.id, "pallet": pallet_id, "content": content[:8], "emitted": items_out[:8]})
+        left = [getattr(i, "id", None) for i in getattr(u.x, "items", [])]
+        if left:
+            mon.violation("C16", "splitter_pallet_not_empty", "splitter:pallet-emitted-while-still-carrying-items",
+                          {"node": L.id, "pallet": pallet_id, "still_on_pallet": left[:6], "content": content[:8],
+                           "blocking": L.node._spec.get("blocking"), "out_sel": repr(L.node._spec.get("out_sel"))[:30]})
 
     # ------------------------------------------------------------------ C16
     def _check_recipe(self, L, u, pallet):
